@@ -143,7 +143,7 @@ def framing_records(tier, rng):
     # long lines: a frame padded to a length around every power of two (a buffer or length limit would sit there), LF and CRLF
     # endings, between two ordinary frames
     longs = []
-    for p2 in ([64, 128, 256, 512, 1024] if tier == "quick" else [64, 128, 256, 512, 1024, 2048, 4096]):
+    for p2 in ([64, 128, 256, 512, 1024, 4096] if tier == "quick" else [64, 128, 256, 512, 1024, 2048, 4096, 8192, 16384]):
         for total in (p2 - 1, p2, p2 + 1):
             for end in (b"\n", b"\r\n"):
                 head = b"7;255;0;0;17;2.2" if total % 2 else b"1;0;1;0;47;"
